@@ -24,7 +24,7 @@ RULE = ('case = (stateful subclass of one of the six worker classes, init_state 
 ASSUMPTIONS = ['thread kinds are excluded from the alive-phase read (documented as unspecified)', 'values are compared with ==']
 SHRINK = 'none'
 TIME_BUDGET = {'quick': 170, 'thorough': 1700}
-REQUIRED = {'quick': {'ending:terminate': 20, 'ending:raise': 40, 'chain>1': 60, 'paused_read': 20, 'first_read:user_state': 100, 'restart': 20, 'inplace_mutation': 60, 'same_object_assigned_back': 40, 'death_observed_without_worker_api': 8, 'late_landing_reached': 40, 'busy_restart': 40},
+REQUIRED = {'quick': {'ending:terminate': 20, 'ending:raise': 40, 'chain>1': 60, 'paused_read': 20, 'first_read:user_state': 100, 'restart': 20, 'inplace_mutation': 60, 'same_object_assigned_back': 40, 'death_observed_without_worker_api': 8, 'late_landing_reached': 40, 'busy_restart': 40, 'ending:return_lock': 40},
             'thorough': {'ending:terminate': 180, 'ending:raise': 180, 'chain>1': 250, 'paused_read': 130}}
 
 _VALS = ['none', 'zero', 'str', 'list', 'dict', 'point', 5, 6, 7]
@@ -66,7 +66,13 @@ def strategy(tier):
     busy = st.fixed_dictionaries({
         'busy_restart': st.just(True), 'kind': st.sampled_from(['p_process', 'p_process', 'p_remote', 'p_thread']), 'init': st.sampled_from(_VALS),
         'values': st.lists(st.sampled_from(_VALS), min_size=1, max_size=4), 'timeout': st.sampled_from([0.2, 0.5]), 'restarts': st.integers(1, 2)})
-    return st.one_of(general, general, general, same_object, late, busy)
+    # a process worker that assigns its state and then returns something that cannot be sent: the outcome becomes an error, the state still has to arrive
+    inc_rl = st.fixed_dictionaries({
+        'values': st.lists(st.sampled_from([5, 6, 7, 'list', 'str']), min_size=1, max_size=3), 'nowait': st.booleans(), 'ending': st.just('return_lock'),
+        'n_raw': st.integers(0, 500), 'pause': st.just(False), 'reads': st.permutations(['user_state', 'has_error', 'result'])})
+    rl = st.fixed_dictionaries({'kind': st.just('process'), 'init': st.sampled_from(['zero', 'none', 'dict']), 'chain': st.lists(inc_rl, min_size=1, max_size=2),
+                                'use_restart': st.just(False), 'assign_from_parent': st.just('never')})
+    return st.one_of(general, general, general, same_object, late, busy, rl)
 
 
 def _general(inc):
